@@ -32,6 +32,8 @@ func runC12(c *core.Ctx) {
 	h.labelCoherence("C12.1 label-coherence")
 	h.snapshotAtAppliedIndex("C12.2 snapshot-at-applied-index")
 	h.installSnapshotHandler("C12.3 install-handler")
+	c.Clause("C12.4 restart takes the membership from the label only when the log holds no newer configuration entry")
+	h.openStorageRebuild("C12.4 restart-rebuild")
 }
 
 func runC10(c *core.Ctx) {
@@ -52,4 +54,7 @@ func runC10(c *core.Ctx) {
 	c.Clause("C10.6 followers flush before acknowledging; leader flushes before advancing")
 	h.followerFlushBeforeAck("C10.6a follower-flush")
 	h.leaderFlushBeforeAdvance("C10.6b leader-flush")
+	c.Clause("C10.7 state rebuilt from snapshot meta and log on open; FSM restored before the snapshot index is trusted")
+	h.openStorageRebuild("C10.7a restart-rebuild")
+	h.servePrologue("C10.7b serve-prologue")
 }
